@@ -2,6 +2,8 @@ package checks
 
 import (
 	"fmt"
+	"strings"
+	"verif/internal/h"
 
 	"verif/internal/fw"
 	"verif/internal/model"
@@ -204,6 +206,58 @@ func C04(c *fw.Ctx) {
 				model.Print(model.CallN("ap", id(model.BiRound), num(2.5))),
 			}
 			run("parameter-as-callee", prog)
+		}
+	}
+	// (a3) sibling closures and a late declaration: a reader and a writer of the name n are declared in a
+	// scope, called (or not) before that scope declares its own n, and called afterwards, also after the
+	// scope has ended.  Which n they mean then is outside the specified domain (static and dynamic
+	// resolution differ) -- but they were declared in the same scope, so under either reading they mean the
+	// same one: what the writer returns is what the reader reads next
+	{
+		P, V, F, R := model.KwPrint, model.KwVar, model.KwFun, model.KwReturn
+		for site := 0; site < 3; site++ {
+			for mask := 0; mask < 8; mask++ {
+				if !c.Mine() {
+					continue
+				}
+				body := F + " get() { " + R + " n; }\n" + F + " inc() { n = n + 1; " + R + " n; }\n"
+				if mask&1 != 0 {
+					body += V + " before = get();\n"
+				}
+				if mask&2 != 0 {
+					body += "inc();\n"
+				}
+				body += V + " n = 0;\n"
+				if mask&4 != 0 {
+					body += "inc();\n"
+				}
+				body += P + " inc() == get();\n" + P + " get() == get();\nkeep = [get, inc];\n"
+				var src string
+				switch site {
+				case 0:
+					src = V + " n = 100;\n" + V + " keep = nil;\n" + F + " make() {\n" + body + "}\nmake();\n"
+				case 1:
+					src = V + " n = 100;\n" + V + " keep = nil;\n{\n" + body + "}\n"
+				case 2:
+					src = V + " n = 100;\n" + V + " keep = nil;\n" + model.KwFor + " (" + V + " i = 0; i < 2; i = i + 1) {\n" + body + "}\n"
+				}
+				src += P + " keep[1]() == keep[0]();\n" + P + " keep[1]() == keep[0]();\n"
+				o := h.RunFile(src, h.Opts{})
+				c.Eval(src, true)
+				c.R.States++
+				c.R.Transitions++
+				base := fw.Replay{Mode: "file", Program: src, CLI: true, InStdout: o.Stdout, InStderr: o.Stderr, InStatus: o.Status}
+				if abnormal(c, o, "file", src, base) || o.Status != 0 {
+					continue // a refusal of the late declaration is one of the readings
+				}
+				if strings.Contains(o.Stdout, "false") {
+					r := base
+					r.Sig = "C04|sibling-closures-disagree|late-declaration"
+					r.What = "two closures declared in one scope and using the same name do not mean the same variable"
+					r.Expected, r.Observed = "every comparison true", o.Stdout
+					c.Violate(r)
+				}
+			}
 		}
 	}
 	// (a) return placement
